@@ -13,6 +13,9 @@ pub enum FaultKind {
     Error,
     /// the stream ends: receive reports end-of-stream (an error), sends fail
     Eof,
+    /// only the write half breaks (EPIPE on a half-closed stream): from the first send or flush
+    /// at or after the index on, sends and flushes fail while the read half stays as it is
+    WriteHalf,
 }
 
 #[derive(Clone, Debug)]
@@ -44,22 +47,31 @@ pub struct Gate {
     idx: usize,
     ops: u64,
     broken: bool,
+    write_broken: bool,
 }
 
 impl Gate {
     pub fn new(inner: Chan, minor: u32, fault: Option<FaultPlan>, log: Shared, idx: usize) -> Self {
-        Self { inner, minor, fault, log, idx, ops: 0, broken: false }
+        Self { inner, minor, fault, log, idx, ops: 0, broken: false, write_broken: false }
     }
 
     /// Counts one completed operation; returns the error to inject, if any.
-    fn op(&mut self) -> Option<GateError> {
+    fn op(&mut self, write: bool) -> Option<GateError> {
         let k = self.ops;
         self.ops += 1;
         self.log.borrow_mut().gate[self.idx].ops = self.ops;
-        if self.broken {
+        if self.broken || (write && self.write_broken) {
             return Some(self.err());
         }
         if let Some(f) = &self.fault {
+            if f.kind == FaultKind::WriteHalf {
+                if write && k >= f.at_op {
+                    self.write_broken = true;
+                    self.log.borrow_mut().gate[self.idx].fault_delivered = true;
+                    return Some(self.err());
+                }
+                return None;
+            }
             if k >= f.at_op {
                 self.broken = true;
                 self.log.borrow_mut().gate[self.idx].fault_delivered = true;
@@ -88,7 +100,7 @@ impl AsyncTransport for Gate {
         match Pin::new(&mut this.inner).receive_poll(cx) {
             Poll::Pending => Poll::Pending,
             Poll::Ready(r) => {
-                if let Some(e) = this.op() {
+                if let Some(e) = this.op(false) {
                     return Poll::Ready(Err(e));
                 }
                 Poll::Ready(r.map_err(|_| GateError::Disconnected))
@@ -98,7 +110,7 @@ impl AsyncTransport for Gate {
 
     fn send_poll_ready(self: Pin<&mut Self>, cx: &mut Context) -> Poll<Result<(), GateError>> {
         let this = self.get_mut();
-        if this.broken {
+        if this.broken || this.write_broken {
             return Poll::Ready(Err(this.err()));
         }
         Pin::new(&mut this.inner).send_poll_ready(cx).map_err(|_| GateError::Disconnected)
@@ -106,7 +118,7 @@ impl AsyncTransport for Gate {
 
     fn send_start(self: Pin<&mut Self>, mut msg: Message) -> Result<(), GateError> {
         let this = self.get_mut();
-        if let Some(e) = this.op() {
+        if let Some(e) = this.op(true) {
             return Err(e);
         }
         if let Message::Connect2(c) = &mut msg {
@@ -119,13 +131,13 @@ impl AsyncTransport for Gate {
 
     fn send_poll_flush(self: Pin<&mut Self>, cx: &mut Context) -> Poll<Result<(), GateError>> {
         let this = self.get_mut();
-        if this.broken {
+        if this.broken || this.write_broken {
             return Poll::Ready(Err(this.err()));
         }
         match Pin::new(&mut this.inner).send_poll_flush(cx) {
             Poll::Pending => Poll::Pending,
             Poll::Ready(r) => {
-                if let Some(e) = this.op() {
+                if let Some(e) = this.op(true) {
                     return Poll::Ready(Err(e));
                 }
                 Poll::Ready(r.map_err(|_| GateError::Disconnected))
